@@ -9,6 +9,7 @@ import random
 
 from rig import geometry
 from rig.links import Links
+from rig.place_and_route import Machine
 from rig.place_and_route.route.utils import longest_dimension_first
 from rig.place_and_route.route import utils as route_utils
 
@@ -151,9 +152,31 @@ def run(chk):
                     for l in Links:
                         dx, dy = l.to_vector()
                         nx, ny = (x + dx) % w, (y + dy) % h
-                        r = Links.from_vector((nx - x, ny - y))
+                        try:
+                            r = Links.from_vector((nx - x, ny - y))
+                        except Exception as ex:          # judged by the specification
+                            evs.append(["raise", "from_vector", [nx - x, ny - y], type(ex).__name__])
+                            continue
                         evs.append(["fromvec", x, y, int(l), int(r)])
                         chk.note_case(("fromvec", w, h, x, y, int(l)))
+            # working links between a chip and each of its neighbours (and a non-neighbour), with some links dead
+            if w * h > 1:
+                dead = set()
+                for _ in range(rng.randint(0, 4)):
+                    dead.add((rng.randrange(w), rng.randrange(h), Links(rng.randrange(6))))
+                mach = Machine(w, h, dead_links=dead)
+                for (x, y) in srcs[:4]:
+                    others = set(((x + dx) % w, (y + dy) % h) for dx, dy in ((1, 0), (1, 1), (0, 1), (-1, 0), (-1, -1), (0, -1)))
+                    others.add((rng.randrange(w), rng.randrange(h)))
+                    for (bx, by) in sorted(others):
+                        try:
+                            r = route_utils.links_between((x, y), (bx, by), mach)
+                        except Exception as ex:
+                            evs.append(["raise", "links_between", [x, y, bx, by], type(ex).__name__])
+                            continue
+                        evs.append(["lb", x, y, bx, by, sorted([dx_, dy_, int(dl)] for dx_, dy_, dl in dead),
+                                    sorted(int(v) for v in r)])
+                        chk.note_case(("lb", w, h, x, y, bx, by, tuple(sorted(dead))))
             flush(w, h, evs)
 
     # ---- mesh functions, minimise_xyz, unwrapped walks, link table, hexagons
